@@ -199,7 +199,7 @@ func (ex *Exec) harnessPrim(st *State, fn *ssa.Function, args []Value, in *ssa.C
 		if !ok {
 			return false
 		}
-		st.bencNext = append(st.bencNext, bencReg{iv.T.Underlying().(*types.Pointer).Elem(), v})
+		st.bencNext = append(st.bencNext, bencReg{iv.T.Underlying().(*types.Pointer).Elem(), v, nil})
 		n := ex.freshVar("benc.len", BV(64))
 		st.pc = append(st.pc, Ule(n, Const(64, 1<<20)), Ult(Const(64, 1), n))
 		setRes(st, in, SliceV{ex.newObj(st, ArrV{ex.freshArr("benc"), -1, 8}), Const(64, 0), n, n})
@@ -462,8 +462,18 @@ func init() {
 		"(*github.com/zeebo/bencode.Decoder).Decode": func(ex *Exec, st *State, args []Value, in *ssa.Call, pos token.Pos) bool {
 			did := args[0].(PtrV).Obj
 			if tg, ok := args[1].(IfaceV); ok && tg.T != nil {
-				if v, ok := st.takeBenc(tg.T.Underlying().(*types.Pointer).Elem()); ok {
-					if !ex.store(st, tg.V.(PtrV), v, pos) {
+				if r, ok := st.takeBencReg(tg.T.Underlying().(*types.Pointer).Elem()); ok {
+					if d, isDec := st.heap[did].Val.(DecoderV); isDec && r.N != nil {
+						// the registered value stands for an encoding of r.N bytes: the decoder consumes exactly those
+						if !ex.feasible(st, Ule(r.N, ex.remaining(st, d.R))) {
+							setRes(st, in, errVal("bencode.truncated"))
+							return true
+						}
+						st.pc = append(st.pc, Ule(r.N, ex.remaining(st, d.R)))
+						ex.consume(st, d.R, r.N)
+						st.heap[did] = &Obj{Val: DecoderV{d.R, Add(d.Parsed, r.N)}}
+					}
+					if !ex.store(st, tg.V.(PtrV), r.V, pos) {
 						return false
 					}
 					setRes(st, in, nilErr)
@@ -526,6 +536,66 @@ func init() {
 			n := Const(64, 16384)
 			s := SliceV{ex.newObj(st, ArrV{ex.freshArr("pool"), -1, 8}), Const(64, 0), n, n}
 			setRes(st, in, IfaceV{T: types.NewSlice(types.Typ[types.Uint8]), V: s})
+			return true
+		},
+		"github.com/zeebo/bencode.EncodeBytes": func(ex *Exec, st *State, args []Value, in *ssa.Call, pos token.Pos) bool {
+			iv := args[0].(IfaceV)
+			var v Value = iv.V
+			tp := iv.T
+			if pt, ok := iv.T.Underlying().(*types.Pointer); ok {
+				lv, ok := ex.load(st, iv.V.(PtrV), pos)
+				if !ok {
+					return false
+				}
+				v, tp = lv, pt.Elem()
+			}
+			n := ex.freshVar("benc.len", BV(64))
+			st.pc = append(st.pc, Ule(Const(64, 2), n), Ule(n, Const(64, 4096)))
+			st.bencNext = append(st.bencNext, bencReg{tp, v, n})
+			st.stubbed = true
+			setRes(st, in, TupleV{SliceV{ex.newObj(st, ArrV{ex.freshArr("benc"), -1, 8}), Const(64, 0), n, n}, nilErr})
+			return true
+		},
+		"bufio.NewWriter": func(ex *Exec, st *State, args []Value, in *ssa.Call, pos token.Pos) bool {
+			under := 0
+			if iv, ok := args[0].(IfaceV); ok && iv.T != nil {
+				if p, ok := iv.V.(PtrV); ok {
+					under = p.Obj
+				}
+			}
+			setRes(st, in, PtrV{Obj: ex.newObj(st, WriterV{A: AConst(8, 0), N: Const(64, 0), Under: under})})
+			return true
+		},
+		"(*bufio.Writer).AvailableBuffer": func(ex *Exec, st *State, args []Value, in *ssa.Call, pos token.Pos) bool {
+			setRes(st, in, SliceV{ex.newObj(st, ArrV{AConst(8, 0), -1, 8}), Const(64, 0), Const(64, 0), Const(64, 4096)})
+			return true
+		},
+		"(*bufio.Writer).Write": func(ex *Exec, st *State, args []Value, in *ssa.Call, pos token.Pos) bool {
+			id := args[0].(PtrV).Obj
+			w := st.heap[id].Val.(WriterV)
+			b := args[1].(SliceV)
+			if b.Obj != 0 {
+				ba, _ := ex.sliceArr(st, b)
+				w.A = ACopy(w.A, w.N, ba.A, b.Off, b.Len)
+				w.N = Add(w.N, b.Len)
+				st.heap[id] = &Obj{Val: w}
+			}
+			setRes(st, in, TupleV{b.Len, nilErr})
+			return true
+		},
+		"(*bufio.Writer).Flush": func(ex *Exec, st *State, args []Value, in *ssa.Call, pos token.Pos) bool {
+			setRes(st, in, nilErr)
+			return true
+		},
+		"(*bytes.Buffer).Bytes": func(ex *Exec, st *State, args []Value, in *ssa.Call, pos token.Pos) bool {
+			bid := args[0].(PtrV).Obj
+			for _, o := range st.heap {
+				if w, ok := o.Val.(WriterV); ok && w.Under == bid {
+					setRes(st, in, SliceV{ex.newObj(st, ArrV{w.A, -1, 8}), Const(64, 0), w.N, w.N})
+					return true
+				}
+			}
+			setRes(st, in, zeroValue(in.Type()))
 			return true
 		},
 		"github.com/zeebo/bencode.NewEncoder": func(ex *Exec, st *State, args []Value, in *ssa.Call, pos token.Pos) bool {
@@ -619,7 +689,17 @@ func init() {
 				a, b = b, a
 			}
 			if !a.Len.IsConst() {
-				panic("bytes.Equal with two symbolic lengths")
+				// both lengths symbolic: skolemised extensional equality (exact on the "differ" side,
+				// an over-approximation on the "equal" side: equal at one arbitrary index)
+				j := ex.freshVar("bytes.eq.j", BV(64))
+				c := Eq(a.Len, b.Len)
+				if a.Obj != 0 && b.Obj != 0 {
+					aa, _ := ex.sliceArr(st, a)
+					ba, _ := ex.sliceArr(st, b)
+					c = And(c, Or(Not(Ult(j, a.Len)), Eq(Select(aa.A, Add(a.Off, j)), Select(ba.A, Add(b.Off, j)))))
+				}
+				setRes(st, in, c)
+				return true
 			}
 			c := Eq(a.Len, b.Len)
 			if c.IsFalse() {
